@@ -50,7 +50,12 @@ TReset == /\ IsEv("reset") /\ Consume
 \* failed although its change was applied has lost track): a silent step before the events of the exchange
 TResync == /\ l <= Len(Tr) /\ (Tr[l].ev = "server" \/ (Tr[l].ev = "client" /\ Tr[l].sub = 0)) /\ cpw[U] # db[U]
            /\ cpw' = [cpw EXCEPT ![U] = db[U]] /\ UNCHANGED <<db, out, net, usedKeys, applied, results, l>>
-TNext == TServer \/ TClient \/ TLogin \/ TReset \/ TResync
+\* an independent client (MIT's krb5_change_password) at the simulated service: its request was applied (the server event precedes), and
+\* it reads the service's reply as success - the simulated service speaks the protocol another implementation understands
+TMITClient == /\ IsEv("mitclient") /\ Consume
+              /\ LET x == Tr[l] IN x.stage = 3 /\ x.rc = 0 /\ x.result = 0 /\ db[U] = x.new
+              /\ UNCHANGED vars
+TNext == TServer \/ TClient \/ TLogin \/ TReset \/ TResync \/ TMITClient
 TSpec == TInit /\ [][TNext]_tvars
 Mark == IF l > TLCGet(1) THEN TLCSet(1, l) ELSE TRUE
 Accepted == IF TLCGet(1) = Len(Tr) + 1 THEN TRUE ELSE PrintT(<<"REJECTED", TLCGet(1)>>)
